@@ -89,9 +89,11 @@ structure Agree (C : Codec σ) (l : L2 σ) (d : Dec σ) : Prop where
   st : l.needProps = false → l.needStateReset = false → d.st = l.st
   fresh : l.needProps = true → l.needStateReset = false → l.st = C.reset l.opt
   valid : l.opt.valid = true
+  reach : l.needStateReset = false → C.Reach l.opt l.st
 
 theorem Agree.init (C : Codec σ) (p : Props) (hp : p.valid = true) : Agree C (L2.init C p) (Dec.init C) := by
-  constructor <;> simp [L2.init, Dec.init, hp]
+  refine ⟨?_, ?_, ?_, ?_, ?_, ?_, ?_, ?_, ?_⟩ <;> try simp [L2.init, Dec.init, hp]
+  exact Codec.Reach.reset p hp
 
 /-! ### One chunk -/
 
@@ -143,7 +145,14 @@ theorem emit_step {C : Codec σ} (hC : C.Sound) {l : L2 σ} {d : Dec σ} (ha : A
     ∃ d', d.chunk C ((l.emit (l.startState C) ch st1).2 ++ tail) = some (d', tail)
         ∧ Agree C (l.emit (l.startState C) ch st1).1 d' := by
   obtain ⟨h1, h2, h3, h4, h5⟩ := hC.wf _ _ _ _ _ _ _ hch
-  obtain ⟨aout, aend, adict, afirst, aprops, ast, afresh, avalid⟩ := ha
+  obtain ⟨aout, aend, adict, afirst, aprops, ast, afresh, avalid, areach⟩ := ha
+  -- the state the chunk is started from can occur, hence so can the state it leaves behind
+  have hreach0 : C.Reach l.opt (l.startState C) := by
+    unfold L2.startState
+    cases hns : l.needStateReset
+    · simpa using areach hns
+    · simpa using Codec.Reach.reset l.opt avalid
+  have hreach1 : C.Reach l.opt st1 := Codec.Reach.step hreach0 hch
   by_cases hz : ch.isLzma = true
   · have hinv := hC.inv _ _ _ _ _ _ _ hch hz
     obtain ⟨hp1, hp2⟩ := h4 hz
@@ -169,12 +178,12 @@ theorem emit_step {C : Codec σ} (hC : C.Sound) {l : L2 σ} {d : Dec σ} (ha : A
         refine ⟨_, apply_lzma C d _ _ _ _ _ l.opt l.st _ st1 (by simp [lzmaControl]) (by intro; rw [adict, hnd])
           (by simp [lzmaControl, hnd]; omega) ?_ (by simpa using hinv), ?_⟩
         · simp [Dec.select, lzmaControl, dp1, dp2, hst]; omega
-        · constructor <;> simp [aout, aend, avalid]
+        · refine ⟨?_, ?_, ?_, ?_, ?_, ?_, ?_, ?_, ?_⟩ <;> first | (intro _; exact hreach1) | simp [aout, aend, avalid]
       · simp only [L2.startState, hns] at hinv
         refine ⟨_, apply_lzma C d _ _ _ _ _ l.opt (C.reset l.opt) _ st1 (by simp [lzmaControl]; omega) (by intro; rw [adict, hnd])
           (by simp [lzmaControl, hnd]; omega) ?_ (by simpa using hinv), ?_⟩
         · simp [Dec.select, lzmaControl, dp1, dp2]; omega
-        · constructor <;> simp [aout, aend, avalid]
+        · refine ⟨?_, ?_, ?_, ?_, ?_, ?_, ?_, ?_, ?_⟩ <;> first | (intro _; exact hreach1) | simp [aout, aend, avalid]
     · -- new properties: control 0xC0 or 0xE0; the decoder resets the state, the encoder has a fresh or reset one
       have hst0 : l.startState C = C.reset l.opt := by
         unfold L2.startState
@@ -192,7 +201,7 @@ theorem emit_step {C : Codec σ} (hC : C.Sound) {l : L2 σ} {d : Dec σ} (ha : A
         · simp [lzmaControl, hnd] at hge; omega
         · rw [aout]; exact (afirst hnd).1
       · simp [Dec.select, hbyte]
-      · constructor <;> simp [aout, aend, avalid]
+      · refine ⟨?_, ?_, ?_, ?_, ?_, ?_, ?_, ?_, ?_⟩ <;> first | (intro _; exact hreach1) | simp [aout, aend, avalid]
   · -- stored chunk
     have hz' : ch.isLzma = false := by simpa using hz
     have hn := h5 hz'
@@ -220,6 +229,7 @@ theorem emit_step {C : Codec σ} (hC : C.Sound) {l : L2 σ} {d : Dec σ} (ha : A
     · intro _ h; simp at h
     · intro _ h; simp at h
     · exact avalid
+    · intro h; simp at h
 
 
 /-! ### The chunk loop -/
@@ -265,26 +275,32 @@ theorem closeChunks_spec {C : Codec σ} (hC : C.Sound) (fl : Bool) :
 
 /-- When flushing with enough fuel nothing stays unencoded. -/
 theorem closeChunks_flush_empty {C : Codec σ} (hC : C.Sound) :
-    ∀ (fuel : Nat) (l : L2 σ), l.unenc.length < fuel → (L2.closeChunks C true fuel l).1.unenc = [] := by
+    ∀ (fuel : Nat) (l : L2 σ) (d : Dec σ), Agree C l d → l.unenc.length < fuel → (L2.closeChunks C true fuel l).1.unenc = [] := by
   intro fuel
   induction fuel with
-  | zero => intro l h; omega
+  | zero => intro l d _ h; omega
   | succ fuel ih =>
-    intro l h
+    intro l d ha h
     unfold L2.closeChunks
     by_cases he : l.unenc.isEmpty = true
     · simp only [he, if_true]; simpa using he
     · simp only [he]
       have hne : l.unenc ≠ [] := by simpa using he
+      have hreach0 : C.Reach l.opt (l.startState C) := by
+        unfold L2.startState
+        cases hns : l.needStateReset
+        · simpa using ha.reach hns
+        · simpa using Codec.Reach.reset l.opt ha.valid
       cases hch : C.choose true l.opt (l.startState C) l.hist l.unenc with
-      | none => exact absurd hch (hC.live _ _ _ _ hne)
+      | none => exact absurd hch (hC.live _ _ _ _ hreach0 hne)
       | some pr =>
         obtain ⟨ch, st1⟩ := pr
         have hwf := hC.wf _ _ _ _ _ _ _ hch
         have hn0 : ¬ ch.n = 0 := by omega
         simp only [Bool.false_eq_true, if_false, hn0]
         obtain ⟨f1, f2, f3⟩ := emit_fields (l := l) (l.startState C) ch st1
-        apply ih
+        obtain ⟨d1, _, ha1⟩ := emit_step hC ha hch []
+        apply ih _ d1 ha1
         rw [f3, List.length_drop]; omega
 
 
@@ -296,8 +312,8 @@ theorem chunk_endMarker (C : Codec σ) (d : Dec σ) (tail : Bytes) :
 
 theorem Agree.withUnenc {C : Codec σ} {l : L2 σ} {d : Dec σ} (ha : Agree C l d) (u : Bytes) :
     Agree C { l with unenc := u } d := by
-  obtain ⟨a1, a2, a3, a4, a5, a6, a7, a8⟩ := ha
-  exact ⟨a1, a2, a3, a4, a5, a6, a7, a8⟩
+  obtain ⟨a1, a2, a3, a4, a5, a6, a7, a8, a9⟩ := ha
+  exact ⟨a1, a2, a3, a4, a5, a6, a7, a8, a9⟩
 
 /-- One operation of the LZMA2 encoder. -/
 theorem l2_code_spec {C : Codec σ} (hC : C.Sound) (l : L2 σ) (d : Dec σ) (ha : Agree C l d) (inp : Bytes) (a : Action) (tail : Bytes) :
@@ -330,7 +346,7 @@ theorem l2_code_spec {C : Codec σ} (hC : C.Sound) (l : L2 σ) (d : Dec σ) (ha 
     rw [hh0, hu0, ← List.append_assoc] at hh
     split <;> simp [lzma2SeqInitNoInput, ho, ho0] <;> exact ⟨by simpa using hh, d', hd, ha'⟩
   all_goals
-    have hemp := closeChunks_flush_empty hC fuel l0 hfu
+    have hemp := closeChunks_flush_empty hC fuel l0 d ha0 hfu
     simp only [lzFlushing, Bool.and_true, (by decide : (Action.syncFlush != Action.run) = true),
       (by decide : (Action.fullFlush != Action.run) = true), (by decide : (Action.fullBarrier != Action.run) = true),
       (by decide : (Action.finish != Action.run) = true)] at hemp ⊢
@@ -365,8 +381,8 @@ theorem optionsUpdate_agree {C : Codec σ} {l : L2 σ} {d : Dec σ} (ha : Agree 
     · simp [h1, h2]; subst h2; exact ha
     · by_cases h3 : p.valid = true
       · simp [h1, h2, h3]
-        obtain ⟨a1, a2, a3, a4, a5, a6, a7, a8⟩ := ha
-        exact ⟨a1, a2, a3, fun h => ⟨(a4 h).1, rfl⟩, by simp, by simp, by simp, h3⟩
+        obtain ⟨a1, a2, a3, a4, a5, a6, a7, a8, a9⟩ := ha
+        exact ⟨a1, a2, a3, fun h => ⟨(a4 h).1, rfl⟩, by simp, by simp, by simp, h3, by simp⟩
       · simp [h1, h2, h3]; exact ha
   · simp [h1]; exact ha
 
